@@ -80,7 +80,7 @@ def _iterable_params(func: ast.FunctionDef) -> set[str]:
     return out
 
 
-def _consuming_loads(node: ast.AST) -> dict[str, int]:
+def _consuming_loads(node: ast.AST, as_test: bool = False) -> dict[str, int]:
     """Number of consuming loads per name in an expression/statement: `x is None` tests and isinstance(x, ..) do not consume;
     the two arms of a conditional expression are alternatives."""
     counts: dict[str, int] = {}
@@ -90,6 +90,19 @@ def _consuming_loads(node: ast.AST) -> dict[str, int]:
 
     def add(a: dict, b: dict) -> dict:
         return {k: a.get(k, 0) + b.get(k, 0) for k in set(a) | set(b)}
+
+    def rec_test(n: ast.AST) -> dict:
+        """A name tested for truth (`if xs:`, `not xs`, `xs and ..`) is looked at, not traversed."""
+        if isinstance(n, ast.Name):
+            return {}
+        if isinstance(n, ast.UnaryOp) and isinstance(n.op, ast.Not):
+            return rec_test(n.operand)
+        if isinstance(n, ast.BoolOp):
+            out: dict = {}
+            for v in n.values:
+                out = add(out, rec_test(v))
+            return out
+        return rec(n)
 
     def rec(n: ast.AST) -> dict:
         if isinstance(n, ast.Name):
@@ -102,14 +115,14 @@ def _consuming_loads(node: ast.AST) -> dict[str, int]:
                 out = add(out, rec(a))
             return out
         if isinstance(n, ast.IfExp):
-            return add(rec(n.test), merge_max(rec(n.body), rec(n.orelse)))
+            return add(rec_test(n.test), merge_max(rec(n.body), rec(n.orelse)))
         if isinstance(n, (ast.FunctionDef, ast.AsyncFunctionDef, ast.ClassDef)):
             return {}
         out = {}
         for c in ast.iter_child_nodes(n):
             out = add(out, rec(c))
         return out
-    return rec(node)
+    return rec_test(node) if as_test else rec(node)
 
 
 def lazy_reuse_findings(func: ast.FunctionDef, lazy_assign_nodes: set[int], lazy_params: set[str] = frozenset()) -> list[tuple[ast.AST, str]]:
@@ -119,6 +132,7 @@ def lazy_reuse_findings(func: ast.FunctionDef, lazy_assign_nodes: set[int], lazy
     State: frozenset of (name, 'fresh'|'used').
     """
     findings: list[tuple[ast.AST, str]] = []
+    for_iters = {id(n.iter) for n in ast.walk(func) if isinstance(n, (ast.For, ast.AsyncFor))}
 
     def loads_in(node: ast.AST) -> list[ast.Name]:
         out = []
@@ -128,9 +142,9 @@ def lazy_reuse_findings(func: ast.FunctionDef, lazy_assign_nodes: set[int], lazy
         # nested lambdas / comprehensions are walked too (a closure over a consumed iterator is still a load)
         return out
 
-    def consume(state: frozenset, node: ast.AST) -> frozenset:
+    def consume(state: frozenset, node: ast.AST, as_test: bool = False) -> frozenset:
         d = dict(state)
-        for name, cnt in _consuming_loads(node).items():
+        for name, cnt in _consuming_loads(node, as_test).items():
             st = d.get(name)
             if st is None or cnt == 0:
                 continue
@@ -147,7 +161,7 @@ def lazy_reuse_findings(func: ast.FunctionDef, lazy_assign_nodes: set[int], lazy
         if kind == "call":
             return [state]
         if kind == "test":
-            return [consume(state, node)]
+            return [consume(state, node, id(node) not in for_iters)]        # the iterable of a for statement is traversed, a test is only looked at
         if kind in ("stmt", "return"):
             if isinstance(node, (ast.Assign, ast.AnnAssign)) and getattr(node, "value", None) is not None:
                 state = consume(state, node.value)
@@ -419,8 +433,11 @@ def rule_c11_worker(prog: Program, col: Collector) -> None:
         raise AnalysisError("possible_action_sequences: expected a single return")
     rv = rets[0].value
     from .common import distinct
-    comb = distinct(s for s in subterms(rv) if s[0] == "call" and s[1][0] == "global" and s[1][1].startswith("itertools.") and
+    comb = distinct(s for s in subterms(rv) if s[0] == "call" and s[1][0] == "global" and (s[1][1].startswith("itertools.") or "." not in s[1][1]) and
                     s[1][1].rsplit(".", 1)[-1] in ("combinations", "permutations", "product", "combinations_with_replacement"))
+    if not comb:
+        # no itertools enumeration in the returned expression at all (a generator function with loops of its own, a helper): not this idiom family
+        raise AnalysisError(f"possible_action_sequences: the enumeration is not an itertools expression in the returned value ({short(rv, 60)}): not read through")
     col.check(len(comb) == 1 and comb[0][1][1] == "itertools.combinations", pref.where(), pref.short,
               f"subsets are generated by itertools.combinations ({[c[1][1] for c in comb]})", construct="enum-combinations",
               necessity="permutations / product / with_replacement enumerate a set several times or with repeats")
